@@ -226,4 +226,37 @@ def cliDeliver (accept : List Enc) (shape : Shape) (resp : CliResp) (o : CliObs)
   | .refuse => true
   | r => cliDelivered r.enc shape resp o
 
+/-! ### a tonic client against a tonic server (any two configurations) -/
+
+/-- the response encoding two tonic peers must end up with: the first encoding, in the order the
+client enabled (and therefore advertises) them, that the server may send -/
+def pairResponseEnc (cAccept sSend : List Enc) : Option Enc :=
+  cAccept.find? (fun e => sSend.contains e)
+
+/-- the request is compressed with something the server does not accept -/
+def pairRefused (cSend : Option Enc) (sAccept : List Enc) : Bool :=
+  match cSend with
+  | some e => !sAccept.contains e
+  | none => false
+
+/-- (11) Whatever the two configurations: the call is refused with UNIMPLEMENTED (and the
+server's accept list reaches the caller) exactly when the client sends an encoding the server
+does not accept; otherwise every request message reaches the handler intact, the response uses
+the client's first choice among what the server may send (identity if there is none), and the
+caller receives every response message intact — the client never refuses or garbles what a tonic
+server sends it. -/
+def pairOk (cSend : Option Enc) (cAccept sAccept sSend : List Enc) (shape : Shape) (k : Nat)
+    (h : Handler) (so : SrvObs) (co : CliObs) : Bool :=
+  cliSend cSend co && cliAdvertise cAccept co &&
+  (if pairRefused cSend sAccept then
+    !so.called && co.result == [.err 12 .unsupported] && acceptListOk sAccept co.errAcc
+  else
+    so.called && so.saw == List.replicate (if shape.singleRequest then 1 else k) (.ok .raw) &&
+    (match h with
+     | .fail c => co.result == [.err c .handler]
+     | .reply n _ _ =>
+       so.enc == ((pairResponseEnc cAccept sSend).map name).toList &&
+       so.frames.all (frameOk so.enc) &&
+       co.result == List.replicate (if shape.singleResponse then 1 else n) (.ok .raw)))
+
 end Spec.Compression
